@@ -773,6 +773,67 @@ def _selftest():
         raise HarnessError("variants() is broken: %r" % (v,))
 
 
+# ------------------------------------------------------------------ redirect follow-ups
+# "For every http/https URL a PoolManager accepts ... the Host header names that same host and port": the URL a
+# manager requests on behalf of a Location header is such a URL. Chains of 1-2 redirects (every Location form of
+# mc/c05_chains.py that names a next URL, every 3xx code) are run through PoolManager and ProxyManager; for each
+# request seen by the network the Host header must name the origin that very request is addressed to (the dialled
+# address when direct, the absolute-form authority behind the forwarding proxy, the CONNECT authority in a tunnel).
+# The caller supplies no Host header here. Whether the request goes to the INTENDED place is C05's business.
+def followup_tasks(thorough):
+    from mc import c05_chains as G
+    statuses = (301, 302, 303, 307, 308) if thorough else (302, 303, 307)
+    forms = [f for f in G.FORMS if f not in G.TERMINAL_FORMS]
+    alpha = G.hopcodes(statuses, forms)
+    tasks = []
+    for client in ("PoolManager", "ProxyManager"):
+        for start in ("had", "sad", "hbx"):
+            for method in ("GET", "POST"):
+                chs = [c for c in G.chains(alpha, 2 if thorough else 1, 1)]
+                if not thorough:
+                    # two-hop chains in the quick tier: one status, every pair of forms
+                    chs += [c for c in G.chains(G.hopcodes((302,), forms), 2, 2)]
+                for i in range(0, len(chs), 200):
+                    tasks.append(("followup", client, start, method, tuple(chs[i:i + 200])))
+    return tasks
+
+
+def _host_names(hv, origin):
+    """does the Host field value name origin = (scheme, host, port)? default port may be elided"""
+    hv = (hv or "").lower()
+    sch, host, port = origin
+    return hv == "%s:%d" % (host, port) or (hv == host and port == {"http": 80, "https": 443}[sch])
+
+
+def run_followups(task):
+    from mc import c05_chains as G
+    _, client, start, method, chs = task
+    acc = Acc()
+    for hops in chs:
+        case = {"client": client, "start": start, "hops": hops, "mode": "c", "method": method,
+                "body": b"b" if method == "POST" else None, "headers": None}
+        res = G.execute(case)
+        acc.n += 1
+        acc.counters["followup_chains"] += 1
+        reqs = [q for q in res["requests"] if "connect" not in q]
+        if len(reqs) >= 2:
+            acc.counters["followup_chains_followed"] += 1
+        for j, q in enumerate(reqs):
+            if q["origin"] is None:
+                continue  # unparseable absolute-form target: the grid's business
+            acc.counters["followup_requests:" + q["via"]] += 1
+            kind = G.hop_kind(G.split_hops(hops)[j - 1][1]) if 0 < j <= len(hops) // 2 else "first"
+            if _host_names(q["host"], q["origin"]):
+                acc.outcomes["followup/%s/%s/%s/host-ok" % (client, q["via"], kind)] += 1
+            else:
+                acc.outcomes["followup/%s/%s/%s/host-wrong" % (client, q["via"], kind)] += 1
+                acc.violation("followup-host-header", {"client": client, "via": q["via"], "hop": kind, "request_no": min(j, 2)},
+                              {"kind": "followup", "client": client, "start": start, "hops": hops, "method": method},
+                              observed={"request": j, "host": q["host"], "addressed_to": list(q["origin"]), "via": q["via"]},
+                              expected="Host names %s:%d (default port may be elided)" % (q["origin"][1], q["origin"][2]))
+    return acc
+
+
 def run(ctx):
     _selftest()
     warnings.simplefilter("ignore")
@@ -791,6 +852,7 @@ def run(ctx):
         for s, ui, h, p in Q_STAR:
             tasks.append(("star", th, s, ui, h, (p,)))
     acc = ctx.gather(_worker, tasks)
+    acc.merge(ctx.gather(run_followups, followup_tasks(th)))
     c = acc.counters
     tails = len(G_PATH) * len(G_QUERY) * len(G_FRAGMENT)
     qtails = len(Q_PATH) * len(Q_QUERY) * len(Q_FRAGMENT)
@@ -824,6 +886,7 @@ def run(ctx):
         "variant_requests": c["variant_requests"],
         "all_clauses_held": c["all_clauses_held"],
         "either_regions": {k: v for k, v in c.items() if k.startswith("either_")},
+        "redirect_followups": {k: v for k, v in c.items() if k.startswith("followup")},
     }
     ctx.finish(
         "exploration", acc, cov,
@@ -859,11 +922,16 @@ def run(ctx):
              and c["either_host-header_zone_kept"] + c["either_host-header_zone_dropped"] > 0, "zone / trailing-dot hosts never reached the Host comparison"),
             (len(acc.outcomes) >= 20, "too few outcome classes: %d" % len(acc.outcomes)),
             (c["all_clauses_held"] >= 2, "no execution on which every clause held"),
+            (c["followup_chains_followed"] > 100 and all(c["followup_requests:" + v] > 50 for v in ("direct", "proxy", "tunnel")),
+             "redirect follow-ups hardly exercised: %r" % {k: v for k, v in c.items() if k.startswith("followup")}),
         ])
 
 
 def replay(case):
     warnings.simplefilter("ignore")
+    if case.get("kind") == "followup":
+        acc = run_followups(("followup", case["client"], case["start"], case["method"], (case["hops"],)))
+        return {"violations": acc.viol, "outcomes": dict(acc.outcomes)}
     acc = Acc()
     trace = []
     run_one(case["parts"], case["client"], acc, trace)
